@@ -163,6 +163,90 @@ theorem spellAtO_tokens (t : Tree) (start : Path) (ts : List Token) (h : serToke
       exact absurd h2 (hno n inScope h1)
     · exact ⟨rfl, _, rfl⟩
 
+/-! ### Conversely: the parameters never make the serialisation fail -/
+
+mutual
+theorem serNodeO_of_default (inScope : List (Nat × Nat)) (isTop : Bool) (s : FStack) (cd : Bool) (n : Tree)
+    (ts0 : List Token) (h : serNode env false inScope isTop s n = .ok ts0) :
+    ∃ ts, serNodeO env pr inScope isTop s cd n = .ok ts := by
+  cases n with
+  | node v ks =>
+    cases v with
+    | document =>
+      simp only [serNode] at h
+      simp only [serNodeO]
+      exact serKidsO_of_default inScope s _ ks ts0 h
+    | «attribute» a b =>
+      simp only [serNode] at h
+      simp only [serNodeO]
+      exact serKidsO_of_default inScope s _ ks ts0 h
+    | «namespace» a b =>
+      simp only [serNode] at h
+      simp only [serNodeO]
+      exact serKidsO_of_default inScope s _ ks ts0 h
+    | text str =>
+      simp only [serNode] at h
+      obtain ⟨x, y, _, hy, _⟩ := appendOk_ok h
+      obtain ⟨y', hy'⟩ := serKidsO_of_default inScope s false ks y hy
+      exact ⟨_, by rw [serNodeO, hy', appendOk_ok_ok]⟩
+    | comment str =>
+      simp only [serNode] at h
+      obtain ⟨x, y, _, hy, _⟩ := appendOk_ok h
+      obtain ⟨y', hy'⟩ := serKidsO_of_default inScope s false ks y hy
+      exact ⟨_, by rw [serNodeO, hy', appendOk_ok_ok]⟩
+    | pi target data =>
+      rw [serNode] at h
+      split at h
+      · cases h
+      · rename_i hns
+        obtain ⟨x, y, _, hy, _⟩ := appendOk_ok h
+        obtain ⟨y', hy'⟩ := serKidsO_of_default inScope s false ks y hy
+        exact ⟨_, by rw [serNodeO, if_neg hns, hy', appendOk_ok_ok]⟩
+    | element name =>
+      obtain ⟨p, ats, content, hdef, hp, ha, hk, _⟩ := serNode_element_ok env h
+      obtain ⟨c', hk'⟩ := serKidsO_of_default inScope _ (kidsCd pr (.element name)) ks content hk
+      have hdef' : (env.nsOfName name == Env.noNamespace &&
+          (s.push (Tree.node (.element name) ks).nsDecls).hasDefaultNamespace) = false := by
+        cases hc : (env.nsOfName name == Env.noNamespace &&
+          (s.push (Tree.node (.element name) ks).nsDecls).hasDefaultNamespace) with
+        | false => rfl
+        | true =>
+          simp only [Bool.and_eq_true, beq_iff_eq] at hc
+          exact absurd hc hdef
+      have : serNodeO env pr inScope isTop s cd (.node (.element name) ks) =
+            .ok (elementTokens (prefixText env p) (env.localName name)
+              (((if isTop then inScope.filter (fun d => !(Tree.node (.element name) ks).declaresPrefix d.1)
+                  else []) ++ (Tree.node (.element name) ks).nsDecls).flatMap (declTokens env))
+              ats (Tree.node (.element name) ks).firstChild?.isNone c') := by
+        rw [serNodeO]
+        simp only [hdef', Bool.false_eq_true, if_false, hp, ha, hk']
+      exact ⟨_, this⟩
+
+theorem serKidsO_of_default (inScope : List (Nat × Nat)) (s : FStack) (cd : Bool) (ks : List Tree)
+    (ts0 : List Token) (h : serNode.serKids env false inScope s ks = .ok ts0) :
+    ∃ ts, serNodeO.serKidsO env pr inScope s cd ks = .ok ts := by
+  cases ks with
+  | nil => exact ⟨_, rfl⟩
+  | cons k ks =>
+    obtain ⟨x, y, hx, hy, _⟩ := serKids_cons_ok env h
+    obtain ⟨x', hx'⟩ := serNodeO_of_default inScope false s cd k x hx
+    obtain ⟨y', hy'⟩ := serKidsO_of_default inScope s cd ks y hy
+    exact ⟨_, by rw [serNodeO.serKidsO, hx', hy', appendOk_ok_ok]⟩
+end
+
+theorem serTokensAtO_of_default (t : Tree) (start : Path) (ts0 : List Token)
+    (h : serTokensAt env false t start = .ok ts0) : ∃ ts, serTokensAtO env pr t start = .ok ts := by
+  unfold serTokensAt at h
+  unfold serTokensAtO
+  cases h1 : t.at? start with
+  | none => exact ⟨_, rfl⟩
+  | some n =>
+    cases h2 : namespacesInScope t start with
+    | none => exact ⟨_, rfl⟩
+    | some inScope =>
+      simp only [h1, h2] at h
+      exact serNodeO_of_default env pr inScope true _ _ n ts0 h
+
 /-! ### R: the same spelling up to the character data runs -/
 
 theorem respList_append {a a' b b' : List NSNode} (h1 : NSNode.Resp.respList a a')
